@@ -413,7 +413,7 @@ func writeEvidence(plan Plan, tier string, seed int, results []*RunResult, incon
 		runs = append(runs, map[string]any{"run": r.Spec.Name, "harness": r.Spec.Pkg + "." + r.Spec.Fn, "params": r.Cfg.Params, "ascii7": r.Cfg.Ascii7,
 			"paths_started": ex.paths, "paths_completed": ex.pathsDone, "paths_infeasible": ex.infeasible, "decisions": ex.decisions, "ssa_instructions": ex.steps,
 			"max_decision_depth": ex.maxDepth, "obligation_sites": siteOut, "reach_markers": reachOut, "wall_s": r.Dur.Seconds(), "bounds": r.Spec.Bounds,
-			"unknown_branch_queries": ex.unknownBr, "preemption_bound": r.Cfg.Preempt})
+			"unknown_branch_queries": ex.unknownBr, "paths_truncated_at_tick_bound": ex.truncated, "preemption_bound": r.Cfg.Preempt})
 		if r.Spec.Bounds != "" {
 			bounds = append(bounds, r.Spec.Name+": "+r.Spec.Bounds)
 		}
